@@ -461,6 +461,22 @@ func (e *CEnv) ident(name string) *Val {
 	if v := e.pkgMember(e.pkg, name); v != nil {
 		return v
 	}
+	// a clause of the function under contract evaluated inside a helper that is executed in place
+	// (a loop that a refactoring moved into the helper): names of the enclosing frames are visible
+	if e.frame != nil && e.frame.contract == nil {
+		for p := e.frame.parent; p != nil; p = p.parent {
+			fd := e.st.F(p)
+			if v, ok := fd.names[name]; ok {
+				return v
+			}
+			if q, ok := fd.allocs[name]; ok {
+				return e.load(ptrOf(q))
+			}
+			if p.contract != nil {
+				break
+			}
+		}
+	}
 	// a local the code has renamed: the contract's name for the k-th local variable of the function
 	if cur := e.currentLocalName(name); cur != name {
 		saved := e.contract
